@@ -168,6 +168,12 @@ class Runner:
         r = sh(["goto-cc", "-o", gb, "--function", ob.func] + objs)
         if r.returncode != 0:
             return None, "link failed:\n" + r.stdout[-3000:]
+        # drop unreachable functions now, so that loop listings (unwindset) and CBMC see the
+        # same set of functions
+        gbd = os.path.join(d, "harness_d.gb")
+        r = sh(["goto-instrument", "--drop-unused-functions", gb, gbd])
+        if r.returncode == 0 and os.path.exists(gbd):
+            gb = gbd
         if ob.replace_calls:
             gb3 = os.path.join(d, "harness_rc.gb")
             cmd = ["goto-instrument"]
@@ -213,6 +219,8 @@ class Runner:
             elif isinstance(n, (tuple, list)):
                 n = n[0]
             hit = False
+            if pat == "RECURSION":
+                res.append("%s:%d" % (fn, n)); continue
             for (lid, f, ln, func) in loops:
                 if func != fn:
                     continue
@@ -228,7 +236,9 @@ class Runner:
                         continue
                 res.append("%s:%d" % (lid, n)); hit = True
             if not hit:
-                res.append(None)
+                if any(func == fn for (_l, _f, _n, func) in loops):
+                    res.append(None)   # function has loops but the line pattern no longer matches
+                # else: function unreachable in this obligation (dropped): default --unwind applies
         return res
 
     # -- run ----------------------------------------------------------------------------
@@ -321,6 +331,7 @@ class Runner:
             return res
         res["props"] = len(props)
         fails = []
+        undecided = 0
         for p in props:
             d = p.get("description", "")
             stt = p.get("status")
@@ -335,10 +346,16 @@ class Runner:
                 fails.append(dict(id=p.get("property"), desc=d, file=loc.get("file", ""),
                                   line=loc.get("line", ""), function=loc.get("function", "")))
             elif stt not in ("SUCCESS",):
-                res["detail"] += "property %s status %s\n" % (p.get("property"), stt)
+                undecided += 1
+                if undecided <= 5:
+                    res["detail"] += "property %s status %s\n" % (p.get("property"), stt)
         res["failures"] = fails
         if fails:
             res["status"] = "fail"
+        elif undecided:
+            # solver error / out of memory for some properties: never a pass
+            res["status"] = "error"
+            res["detail"] = ("%d properties undecided (solver error or memory limit)\n" % undecided) + res["detail"]
         elif res["witnesses_missing"] or (ob.expect_witness and res["witnesses_ok"] == 0):
             res["status"] = "vacuous"
         else:
